@@ -16,7 +16,7 @@ import (
 
 func init() {
 	Register(&Scenario{
-		Prop: "C11", Run: scenarioC11, QuickRuns: 1200, ThoroughRuns: 30000, Level: "exploration",
+		Prop: "C11", Run: scenarioC11, QuickRuns: 12000, ThoroughRuns: 300000, Level: "exploration",
 		Rule:       "one run = a seeded evolving world (both executors); (a) history-dependent half: after construction and after every epoch Organism.Phenotype() of every organism is compared with the reference expression of that organism's *current* genome (a phenotype cached before the last mutation shows here); (b) genomes taken from the run, the shipped modular genome and generated modular genomes are expressed and compared node by node, link by link (pointer-consistent incoming/outgoing lists), control node by control node, and through the whole gonum graph view over all ordered pairs of present ids plus absent ones. A case is one compared network; non-trivial when the genome has a disabled gene, a recurrent gene or a module; distinct by genome shape hash",
 		RealParts:  []string{"Genome.Genesis, Organism.Phenotype / phenotype caching, Network graph adapters (Node, Nodes, From, To, Edge, WeightedEdge, Weight, HasEdgeFromTo, HasEdgeBetween), NodeCount / LinkCount / Complexity", "the epochs and mutators that create and modify the organisms"},
 		StubParts:  []string{"fitness assignment", "goroutine choice in parallel worlds"},
@@ -24,7 +24,7 @@ func init() {
 		ProbeNames: []string{"probe.organism_phenotype_checked", "probe.organism_had_cached_phenotype", "probe.baby_of_structural_mutation", "probe.genome.disabled_gene", "probe.genome.recurrent_gene", "probe.genome.self_loop", "probe.genome.modular", "probe.genome.disabled_module", "probe.multi_edge_pair"},
 	})
 	Register(&Scenario{
-		Prop: "C12", Run: scenarioC12, QuickRuns: 1500, ThoroughRuns: 40000, Level: "exploration",
+		Prop: "C12", Run: scenarioC12, QuickRuns: 30000, ThoroughRuns: 750000, Level: "exploration",
 		Rule:       "one run = feed-forward genomes from a seeded evolving world without recurrent links (landscape rewarding structure, activation-type swarm, 0-2 bias nodes) and from the genome builder; every phenotype that is acyclic with all neurons reachable from a sensor is driven with seeded input vectors through the standard solver (ForwardSteps, RecursiveSteps) and the fast solver (ForwardSteps, RecursiveSteps, Relax) for L..L+3 steps (L = longest sensor-to-output path) and compared with the topological-order reference evaluation. State generator only: the statement has no schedule or fault axis (DESIGN.md section 0). A case is one (network, input vector); non-trivial when the network has a hidden node or a bias link of non-zero weight; distinct by (genome shape hash, input seed)",
 		RealParts:  []string{"Network.LoadSensors / ActivateSteps / ForwardSteps / RecursiveSteps, Network.FastNetworkSolver translation, FastModularNetworkSolver ForwardSteps / RecursiveSteps / Relax", "scalar activation functions as trusted primitives of the reference"},
 		StubParts:  []string{"fitness assignment"},
@@ -32,7 +32,7 @@ func init() {
 		ProbeNames: []string{"probe.net.hidden", "probe.net.bias_link_matters", "probe.net.depth>=3", "probe.net.skip_connection", "probe.net.multi_output", "probe.net.nonsigmoid_activation", "probe.reused_after_flush", "skipped.cyclic", "skipped.unreachable_neuron"},
 	})
 	Register(&Scenario{
-		Prop: "C13", Run: scenarioC13, QuickRuns: 1500, ThoroughRuns: 40000, Level: "exploration",
+		Prop: "C13", Run: scenarioC13, QuickRuns: 30000, ThoroughRuns: 750000, Level: "exploration",
 		Rule:       "one run = networks (feed-forward, recurrent, self-loops) expressed from genomes of a seeded evolving world; each is a stateful node: a tape-drawn activation history (sensor loads, Activate, ActivateSteps with too few steps so that the wave is cut by an error, ForwardSteps, RecursiveSteps, Relax, depth queries incl. capped ones) is followed by Flush - a restart that keeps only durable state (topology, weights) - and then a tape-drawn sequence whose every result, error and output vector must be bit-identical to the same sequence on a fresh instance. Standard network and fast solver. A case is one (network, history, sequence); non-trivial when the network has a recurrent link or a cycle; distinct by (genome shape hash, history hash)",
 		RealParts:  []string{"Network.Flush / NNode.Flushback, FastModularNetworkSolver.Flush and all activation entry points of both solvers"},
 		StubParts:  []string{"fitness assignment"},
@@ -41,7 +41,7 @@ func init() {
 		ProbeNames: []string{"probe.net.recurrent_link", "probe.net.self_loop", "probe.net.cyclic", "probe.history.nonempty", "probe.fast_solver", "probe.standard_network"},
 	})
 	Register(&Scenario{
-		Prop: "C14", Run: scenarioC14, QuickRuns: 1500, ThoroughRuns: 40000, Level: "exploration", CrashIsViolation: true,
+		Prop: "C14", Run: scenarioC14, QuickRuns: 30000, ThoroughRuns: 750000, Level: "exploration", CrashIsViolation: true,
 		Rule:       "one run = networks with hidden nodes expressed from genomes of a seeded evolving world (acyclic ones from recurrence-free worlds, cyclic ones otherwise) and from the genome builder; acyclic: MaxActivationDepth must equal the dynamic-programming longest path ending in an output; cyclic: the query terminates with 0 <= depth <= node count; caps: equal to the uncapped answer when that does not exceed the cap, else (cap, depth-exceeded error); query histories (capped -> uncapped -> capped ..., interleaved with activations): every answer must equal the answer of a fresh network, so an aborted (capped) query must leave no traversal marks. A worker crash by stack overflow or a hang inside a run is reported as non-termination. A case is one (network, query history); non-trivial when the history contains a capped query that hit the cap; distinct by (genome shape hash, history hash)",
 		RealParts:  []string{"Network.MaxActivationDepth / MaxActivationDepthWithCap, NNode.Depth"},
 		StubParts:  []string{"fitness assignment"},
